@@ -13,10 +13,13 @@ the call token, for as long as a cold worker would accept that token): every ent
 ``e <= created_at(c) + ttl + 1`` (a cold worker accepts the token while ``floor(now) - created_at <= ttl``, the
 cache serves an entry while ``now < e``).
 
-  L1   outcome equivalence = the property: the real ``_unpack_and_recover_state`` is run twice on the same
-       request and clock, once on a worker whose cache is ANY state satisfying ``I`` (any capacity, any
-       contents), once on a worker with an EMPTY cache; the outcomes (state object, resolved call, call id,
-       state bytes, user-hook calls — or the HTTP rejection) must coincide.
+  L1   outcome equivalence = the property: the real ``_unpack_and_recover_state`` (with the real get/put and
+       ``_resolve_call_from_token`` inline) is run twice on the same request and clock, once on a worker whose
+       cache satisfies ``I``, once on a worker with an EMPTY cache; the outcomes (state object, resolved call,
+       call id, state bytes, user-hook calls — or the HTTP rejection) must coincide.  Worker A's cache is
+       represented by the part that matters to the request (no entry / one arbitrary I-entry under the request's
+       key, any capacity): O2 proves for unbounded caches that get's answer depends on that entry only, O3 that
+       what put stores does not depend on the other entries and that it keeps I on them.
   L1b  the same for requests whose call token is absent / not the token minted for the cursor's call.
   I    is preserved by ``_unpack_and_recover_state`` (hit, miss, rejection), established by the warm-up in
        ``_run_stream_init_sync`` (real ``_mint_call_token`` + real ``put``), by ``get``/``put``/``clear``.
@@ -44,7 +47,7 @@ from vgi_rpc.http._common import _RpcHttpError
 
 MANIFEST = {
     "level_text": "Deductive proof (monitor argument + self-composition) over the real _CallStateCache.get/put/clear, _unpack_and_recover_state + _resolve_call_from_token, _mint_call_token and the warm-up put of _run_stream_init_sync: for unbounded cache contents, any capacities >= 0 (including 0) on the two workers, any clock readings, any TTL, any identities and any minted streams, (I) the cache invariant 'every entry is what the call token of its call id would yield, and expires no later than that token' is established by /init and preserved by every critical section and by every continuation (hit, miss, rejection), and (L1) under I the same continuation request gets the same outcome — same state object, resolved call, call id, state bytes and user-hook calls, or the same HTTP 400 — from a worker with any I-cache and from a worker with an empty cache; (L2) a hit returns only objects minted for the requesting identity. All state accesses are under the one lock (syntactic scan of every method), so interleavings reduce to sequences of critical sections.",
-    "level_note": "Histories are covered by induction on I (one step = one request on one worker), not enumerated. Assumes: idealised AEAD + C12 (a cursor token opens only for the identity it was minted for and names a minted call id; a call token opens only for its minting identity within its TTL); cursor tokens are minted only for (call id, identity) pairs of a minted call (the mint sites thread the recovered call_id and the request's auth); call ids are fresh; pyarrow / ArrowSerializableDataclass round trips (read_schema(serialize(s)) == s, deserialize(serialize(x)) == x); user hooks (bind_call_state, rehydrate, state deserialisation) are deterministic functions of their arguments; the continuation is posted to the stream's own method (cross-method replay is C13); clock readings are whole seconds (int(time.time()) is the clock) and non-decreasing; threading.Lock mutual exclusion; capacity >= 0. L1b (a request whose call token is absent or not the cursor's own) is stated separately: on a hit the presented call token is not consulted by design.",
+    "level_note": "Histories are covered by induction on I (one step = one request on one worker), not enumerated. In the two-worker unit the I-cache is represented by the entry under the request's key (or none) and the rest is covered by the unbounded get/put contracts (O2: get's answer depends on that entry only; O3: frame + what put stores is independent of the other entries); put's eviction loop is unrolled there exactly (those dicts hold <= 2 entries) and proved by loop invariant for unbounded tables in O3. Assumes: idealised AEAD + C12 (a cursor token opens only for the identity it was minted for and names a minted call id; a call token opens only for its minting identity within its TTL); cursor tokens are minted only for (call id, identity) pairs of a minted call (the mint sites thread the recovered call_id and the request's auth); call ids are fresh; pyarrow / ArrowSerializableDataclass round trips (read_schema(serialize(s)) == s, deserialize(serialize(x)) == x); user hooks (bind_call_state, rehydrate, state deserialisation) are deterministic functions of their arguments; the continuation is posted to the stream's own method (cross-method replay is C13); clock readings are whole seconds (int(time.time()) is the clock) and non-decreasing; threading.Lock mutual exclusion; capacity >= 0. L1b (a request whose call token is absent or not the cursor's own) is stated separately: on a hit the presented call token is not consulted by design.",
     "technique": "contract-based deductive verification: monitor invariant over an ordered-dict sequence model with ghost mint state, relational (two-run) postcondition on the real _unpack_and_recover_state, lock-coverage scan, backward slices of _run_stream_init_sync / _HttpRpcApp.__init__; VCs by pyvc, z3/cvc5",
     "design_ref": "DESIGN.md §5 C14",
 }
@@ -305,6 +308,13 @@ def put(S):
         S.oblige("O3.clear_releases_the_lock", "cache_lock" not in S.ghost.get("__held__", []), kind="lock")
         return
     r = mk_resolved(S, "resolved", created_at=(S.int("created_at") if S.choose(2) == 1 else None))
+    # the same put on an empty cache of capacity 1 (run first, before the loop invariant below is registered)
+    import collections
+
+    lone = mk_cache(S, collections.OrderedDict(), 1, ttl)
+    out1 = S.outcome(st._CallStateCache.put, lone, c, auth, r, now)
+    lone_items = list(lone.fields["_entries"].items()) if out1.returned else []
+    me = mk_cache(S, E, cap, ttl)
     loop = {}
 
     def inv(L):
@@ -333,6 +343,10 @@ def put(S):
         res_eq(E1.val(n1 - 1)[1], r),
         ForAllInt(lambda j: Implies(And(j >= 0, j < n1 - 1), item_eq(E1.items.get(j), E0.items.get(ite(j >= p, j + 1, j) if had else j)))),
     ))
+    S.oblige(
+        "O3.what_put_stores_does_not_depend_on_the_other_entries",
+        len(lone_items) == 1 and And(eq(lone_items[0][0], key), lone_items[0][1][0] == E1.val(n1 - 1)[0], res_eq(lone_items[0][1][1], r)),
+    )
     d = n1 - nf
     S.oblige("O3.size_at_most_capacity", nf <= cap)
     S.oblige("O3.capacity_zero_stores_nothing", Implies(cap == 0, nf == 0))
@@ -472,27 +486,29 @@ class Request:
 
         H[st._ResolvedCall] = resolved_call
         install_created_at(S)
-        sbt = self.sb.t
+        # user hooks are deterministic functions of their arguments: one decision per request, shared by both
+        # runs; the arguments each run actually passes are recorded and compared by the outcome obligation
+        self.tail = ["state_does_not_deserialise", "bind_call_state_raises", "rehydrate_raises", "ok"][S.choose(4)]
+        S.inputs["user_hooks"] = self.tail
 
         def resolve_state_cls(S, state_bytes, state_info):
-            if not S.fork(SBool(OK_CLS(bytesterm(state_bytes)))):
-                raise PyRaise(SExc(ValueError, ("unknown state tag",)))
-            return (SObj(None, kind="StateCls"), SBytes(RAW(bytesterm(state_bytes))))
+            S.event("hook", self.run, "resolve_state_cls", state_bytes)
+            return (SObj(None, kind="StateCls"), state_bytes)
 
         def deserialize_state(S, cls, raw, validation=None):
-            if not S.fork(SBool(OK_DES(bytesterm(raw)))):
+            S.event("hook", self.run, "deserialize", raw)
+            if self.tail == "state_does_not_deserialise":
                 raise PyRaise(SExc(pa.ArrowInvalid, ("corrupt state",)))
             return self.state_obj
 
         def bind(S, so, cs):
-            S.event("bind", self.run, cs)
-            self.bound = cs
-            if not S.fork(SBool(OK_BIND(sbt, cs.t))):
+            S.event("hook", self.run, "bind_call_state", cs)
+            if self.tail == "bind_call_state_raises":
                 raise PyRaise(SExc(UserError, ("bind_call_state failed",)))
 
         def rehydrate(S, so, impl):
-            S.event("rehydrate", self.run)
-            if not S.fork(SBool(OK_REH(sbt, self.bound.t))):
+            S.event("hook", self.run, "rehydrate", impl)
+            if self.tail == "rehydrate_raises":
                 raise PyRaise(SExc(UserError, ("rehydrate failed",)))
 
         H["_resolve_state_cls"] = resolve_state_cls
@@ -503,41 +519,10 @@ class Request:
 
     def app(self, cache, token_ttl):
         self.token_ttl = token_ttl
-        server = SObj(None, kind="Server", ipc_validation="full", implementation=SObj(None, kind="Impl"))
+        if not hasattr(self, "server"):  # both workers run the same service implementation
+            self.server = SObj(None, kind="Server", ipc_validation="full", implementation=SObj(None, kind="Impl"))
+        server = self.server
         return SObj(None, kind="App", _token_key=b"k" * 32, _token_ttl=token_ttl, _call_state_cache=cache, _server=server)
-
-
-def put_loop_invariant(S, E):
-    loop = {}
-
-    def inv(L):
-        cur = L.self.fields["_entries"]
-        if "E1" not in loop:
-            loop["E1"] = cur.snapshot()
-        E1 = loop["E1"]
-        d = SInt(E1.length) - SInt(cur.length)
-        return [("suffix_of_the_stored_table", suffix_of(cur, E1, d)), ("evicting_only_over_capacity", Implies(d > 0, SInt(cur.length) >= L.self.fields["_max_entries"])), ("same_object", cur is E)]
-
-    S.invariants[("_CallStateCache.put", 0)] = inv
-    return loop
-
-
-def cache_loops(S):
-    """Loop invariant of put()'s eviction loop, for whichever cache object runs it (see O3)."""
-    loops = {}
-
-    def inv(L):
-        me = L.self
-        cur = me.fields["_entries"]
-        rec = loops.setdefault(id(me), {"obj": cur})
-        if "E1" not in rec:
-            rec["E1"] = cur.snapshot()  # first evaluation for this cache = loop entry
-        E1 = rec["E1"]
-        d = SInt(E1.length) - SInt(cur.length)
-        return [("suffix_of_the_stored_table", suffix_of(cur, E1, d)), ("evicting_only_over_capacity", Implies(d > 0, SInt(cur.length) >= me.fields["_max_entries"])), ("same_object", cur is rec["obj"])]
-
-    S.invariants[("_CallStateCache.put", 0)] = inv
-    return loops
 
 
 def outcome_of(out):
@@ -547,22 +532,31 @@ def outcome_of(out):
     return ("served", so, res, cid, sb)
 
 
-def same_outcome(a, b, binds_a, binds_b):
+def same_hook_calls(ha, hb):
+    if len(ha) != len(hb) or [h[2] for h in ha] != [h[2] for h in hb]:
+        return False
+    return And(*[(x[3] is y[3]) if isinstance(x[3], SObj) or isinstance(y[3], SObj) else eq(x[3], y[3]) for x, y in zip(ha, hb)])
+
+
+def same_outcome(a, b, ha, hb):
     if a[0] != b[0]:
         return False
+    hooks = same_hook_calls(ha, hb)
     if a[0] == "rejected":
-        return same_rejection(a[1], b[1])
-    if len(binds_a) != len(binds_b):
-        return False
-    return And(a[1] is b[1], res_eq(a[2], b[2]), eq(a[3], b[3]), eq(a[4], b[4]), *[eq(x[2], y[2]) for x, y in zip(binds_a, binds_b)])
+        return And(same_rejection(a[1], b[1]), hooks)
+    return And(a[1] is b[1], res_eq(a[2], b[2]), eq(a[3], b[3]), eq(a[4], b[4]), hooks)
 
 
 def describe(o):
     return o[0] if o[0] == "served" else f"rejected {getattr(o[1][0], 'value', o[1][0])} {o[1][2]}"
 
 
+def entries_of(cache):
+    return list(cache.fields["_entries"].items())
+
+
 @unit(
-    "C14.L1 _unpack_and_recover_state: a worker with any I-cache and a worker with an empty cache give the same outcome; I is preserved",
+    "C14.L1 _unpack_and_recover_state: a worker with an I-cache and a worker with an empty cache give the same outcome; I is preserved",
     targets=[
         "vgi_rpc/http/server/_app_stream.py::_unpack_and_recover_state",
         "vgi_rpc/http/server/_app_stream.py::_resolve_call_from_token",
@@ -570,10 +564,13 @@ def describe(o):
         "vgi_rpc/http/server/_state_token.py::_CallStateCache.put",
     ],
     replay=lambda inputs, ob: replay_history(inputs, ob),
+    search=lambda ob, seed: search_history(ob, seed),
     min_obligations=60,
     max_paths=3000,
 )
 def unpack(S):
+    import collections
+
     now, ttl = S.int("now"), S.int("ttl")
     expires = S.choose(2) == 1
     S.inputs["tokens_expire"] = expires
@@ -585,58 +582,494 @@ def unpack(S):
     req = Request(S, expires, ttl, now)
     c, who = req.c, req.who
     key = (c, req.auth.fields["idkey"])
-    # worker A: any cache satisfying I (and the size bound); worker B: empty cache, any capacity
-    EA = SODict.fresh("EA", KEY, VAL)
-    EA0 = EA.snapshot()
-    capA, capB = S.int("capA"), S.int("capB")
-    S.assume(And(capA >= 0, capB >= 0, SInt(EA0.length) <= capA))
-    S.assume(inv_I(EA0, ttl, expires))
-    warm = S.fork(EA0.has(key))
+    # Worker A: the part of an I-cache that matters to this request — no entry under the request's key, or one
+    # entry satisfying I (entries under other keys influence neither get's answer, O2, nor what put stores, O3).
+    # Worker B: an empty cache.  Capacities: any integers >= 0.
+    dA, dB = collections.OrderedDict(), collections.OrderedDict()
+    warm = req.cursor_ok and S.choose(2) == 1
     S.inputs["worker_A_has_an_entry"] = warm
     if warm:
-        p = EA0.index_of(key)
-        S.lemma("I.instance_for_the_requested_key", entry_ok(EA0.items.get(p), ttl, expires))
-        S.inputs["entry_expiry_minus_now"] = EA0.val(p)[0] - now
-    EB = SODict.empty(KEY, VAL)
-    cacheA, cacheB = mk_cache(S, EA, capA, cache_ttl), mk_cache(S, EB, capB, cache_ttl)
-    cache_loops(S)
+        e0, r0 = S.int("entry_expires_at"), mk_resolved(S, "cached")
+        dA[key] = (e0, r0)
+        S.assume(entry_ok((key, (e0, r0)), ttl, expires))  # I
+        S.inputs["entry_expiry_minus_now"] = e0 - now
+    capA, capB = S.int("capA"), S.int("capB")
+    S.assume(And(capA >= len(dA), capB >= 0))
+    cacheA, cacheB = mk_cache(S, dA, capA, cache_ttl), mk_cache(S, dB, capB, cache_ttl)
+    S.unroll[("_CallStateCache.put", 0)] = 3  # exact: these dicts never hold more than 2 entries
     appA, appB = req.app(cacheA, token_ttl), req.app(cacheB, token_ttl)
     state_info = SObj(None, kind="StateInfo")
+    cursor = SObj(None, kind="CursorToken")
     req.run = "A"
-    outA = S.outcome(aps._unpack_and_recover_state, appA, SObj(None, kind="CursorToken"), req.call_token, state_info, req.auth)
+    outA = S.outcome(aps._unpack_and_recover_state, appA, cursor, req.call_token, state_info, req.auth)
     req.run = "B"
-    outB = S.outcome(aps._unpack_and_recover_state, appB, SObj(None, kind="CursorToken"), req.call_token, state_info, req.auth)
+    outB = S.outcome(aps._unpack_and_recover_state, appB, cursor, req.call_token, state_info, req.auth)
     for out in (outA, outB):
         if out.raised:
             S.oblige("O4.only_http_400_rejections", isinstance(out.exc, SExc) and exc_is(out.exc, _RpcHttpError) and out.exc.attrs.get("status_code") is HTTPStatus.BAD_REQUEST, kind="raises", why=repr(out.exc))
     a, b = outcome_of(outA), outcome_of(outB)
-    binds = S.events("bind")
-    goal = same_outcome(a, b, [e for e in binds if e[1] == "A"], [e for e in binds if e[1] == "B"])
-    hit = warm and not any(e[1] == "A" for e in S.events("open_call")) and req.cursor_ok
+    hooks = S.events("hook")
+    goal = same_outcome(a, b, [h for h in hooks if h[1] == "A"], [h for h in hooks if h[1] == "B"])
+    hit = warm and not any(e[1] == "A" for e in S.events("open_call"))
     S.inputs["worker_A_hit"] = hit
     detail = f"I-cache worker: {describe(a)}; empty-cache worker: {describe(b)}"
     if req.cls == "own":
         S.oblige("L1.same_outcome_as_a_worker_with_an_empty_cache", goal, kind="post", why=detail)
     else:
         S.oblige("L1b.same_outcome_as_a_worker_with_an_empty_cache_when_the_call_token_is_not_the_cursors_own", goal, kind="post", witness="call_token_not_consulted_on_hit", why=detail)
-    # order (security argument of the cache): the cursor token is opened before the cache is consulted / the call token opened
-    names = [(e[0], e[1]) for e in S.trace if e[0] in ("open_cursor", "open_call", "bind")]
+    # order (the security argument of the cache): the cursor token is opened before anything else happens
     for run in "AB":
-        seq = [n for n, r in names if r == run]
-        S.oblige("O4.cursor_token_opened_first", bool(seq) and seq[0] == "open_cursor", kind="trace")
+        seq = [e[0] for e in S.trace if e[0] in ("open_cursor", "open_call", "hook") and e[1] == run]
+        S.oblige("O4.cursor_token_opened_first", bool(seq) and seq[0] == "open_cursor" and seq.count("open_cursor") == 1, kind="trace")
     if hit and outA.returned:
         S.oblige("L2.hit_hands_out_the_objects_minted_for_the_requesting_identity", And(res_eq(a[2], minted_res(c)), SBool(M_WHO(c.t) == who.t)), kind="lemma")
     # I re-established on both workers, whatever the outcome
     for tag, cache, cap in (("A", cacheA, capA), ("B", cacheB, capB)):
-        Ef = cache.fields["_entries"]
-        S.oblige(f"I.preserved_by_unpack_and_recover_state.worker_{tag}", inv_I(Ef, ttl, expires), kind="lemma", witness="entry_outlives_call_token" if expires else "")
-        S.oblige(f"I.size_within_capacity.worker_{tag}", SInt(Ef.length) <= cap, kind="lemma")
-    if req.cls == "own" and req.cursor_ok:
+        ents = entries_of(cache)
+        S.oblige(f"I.preserved_by_unpack_and_recover_state.worker_{tag}", And(*[entry_ok(it, ttl, expires) for it in ents]), kind="lemma")
+        S.oblige(f"I.size_within_capacity.worker_{tag}", len(ents) <= cap, kind="lemma")
+    if req.cls == "own" and req.cursor_ok and req.tail == "ok":
         S.canary("L1.canary.never_served", SBool(z3.BoolVal(a[0] == "rejected")))
-        if expires and not warm:
-            nf = SInt(EB.length)
-            S.canary("I.canary.miss_path_entry_expires_with_a_fresh_ttl", Implies(nf >= 1, EB.val(nf - 1)[0] == now + ttl))
+        if expires and not warm and entries_of(cacheB):
+            S.canary("I.canary.miss_path_entry_expires_with_a_fresh_ttl", entries_of(cacheB)[-1][1][0] == now + ttl)
+        if warm:
+            S.canary("L1.canary.a_present_entry_always_hits", SBool(z3.BoolVal(hit)))
+
+
+# ------------------------------------------------------------------------------------------
+# I established by /init: real _mint_call_token + the warm-up put of _run_stream_init_sync (backward slice)
+# ------------------------------------------------------------------------------------------
+
+
+def _is_warmup_put(n):
+    import ast
+
+    return isinstance(n, ast.Call) and isinstance(n.func, ast.Attribute) and n.func.attr == "put" and isinstance(n.func.value, ast.Attribute) and n.func.value.attr == "_call_state_cache"
+
+
+@unit(
+    "C14.I-init _run_stream_init_sync: the warm-up entry is what the freshly minted call token yields and expires no later than it",
+    targets=["vgi_rpc/http/server/_app_stream.py::_run_stream_init_sync", "vgi_rpc/http/server/_state_token.py::_mint_call_token", "vgi_rpc/http/server/_state_token.py::_CallStateCache.put"],
+    replay=lambda inputs, ob: replay_history(inputs, ob),
+    search=lambda ob, seed: search_history(ob, seed),
+    min_obligations=12,
+)
+def warmup(S):
+    import collections
+    import os
+    import uuid
+
+    ttl = S.int("ttl")
+    expires = S.choose(2) == 1
+    S.inputs["tokens_expire"] = expires
+    if expires:
+        S.assume(ttl > 0)
+        token_ttl, cache_ttl = ttl, ttl
+    else:
+        token_ttl, cache_ttl = 0, 3600
+    auth = mk_auth(S)
+    H = S.handlers
+    # the clock: every read is some whole second not earlier than the previous read
+    reads = []
+
+    def clock(S):
+        t = S.int(f"clock_read_{len(reads)}")
+        if reads:
+            S.assume(t >= reads[-1])
+        reads.append(t)
+        return t
+
+    H[_time.time] = clock
+    H[int] = lambda S, x=0: x
+    H["_get_auth_and_metadata"] = lambda S: (auth, S.opaque("transport_md", "PyObj"))
+    H[uuid.uuid4] = lambda S: SObj(None, kind="UUID", hex=S.str("stream_id"))
+    H["_dispatch_telemetry"] = lambda S, app_, **kw: SObj(None, kind="Telemetry")
+    H["Telemetry.__enter__"] = lambda S, t: SObj(None, kind="Outcome")
+    H["Telemetry.__exit__"] = lambda S, t, *a: False
+    has_cs = S.choose(2) == 1
+    S.inputs["stream_has_call_state"] = has_cs
+    call_state = S.opaque("call_state", "PyObj") if has_cs else None
+    out_schema, in_schema = S.opaque("output_schema", "PyObj"), S.opaque("input_schema", "PyObj")
+    result = SObj(None, kind="StreamResult", call_state=call_state, output_schema=out_schema, input_schema=in_schema, state=SObj(None, kind="StateObj"), header=None)
+    impl = SObj(None, kind="Impl")
+    H[getattr] = lambda S, o, name, *d: (SObj(None, kind="UserMethod") if o is impl else S.interp.getattr_value(o, name))
+    H["UserMethod.__call__"] = lambda S, m, **kw: result
+    # serialisation of the minted objects (what a cold worker would get back: round-trip assumption)
+    ser = {}
+
+    def serialized(obj, tag):
+        b = S.bytes(tag)
+        S.assume(b.length() > 0)
+        ser[id(b)] = obj
+        S.ghost.setdefault("keepalive", []).append(b)
+        return b
+
+    H["PyObj.serialize_to_bytes"] = lambda S, o: serialized(o, "call_state_bytes")
+    H["PyObj.serialize"] = lambda S, o: SObj(None, kind="ArrowBuffer", data=serialized(o, "schema_ipc"))
+    H["ArrowBuffer.to_pybytes"] = lambda S, b: b.fields["data"]
+    H[type] = lambda S, o: SObj(None, kind="TypeObj", __name__="CallStateType")
+    c = S.opaque("call_id", "CallId")
+    H[os.urandom] = lambda S, n: c
+    H["_compute_call_aad"] = lambda S, a: SObj(None, kind="AAD", who=a.fields["who"])
+    minted = {}
+
+    def seal_call_token(S, csb, cs_type, outb, inb, call_id, stream_id, key, aad, created_at):
+        # THE MINT EVENT: from now on minted(call_id) is what this token yields on any worker holding the key
+        S.event("mint", call_id, created_at)
+        minted.update(who=aad.fields["who"], at=created_at, cs=(ser.get(id(csb)) if not isinstance(csb, bytes) else None), out=ser.get(id(outb)), inp=ser.get(id(inb)), sid=stream_id, cid=call_id, empty_cs=isinstance(csb, bytes) and csb == b"")
+        return SObj(None, kind="CallToken")
+
+    H["_seal_call_token"] = seal_call_token
+    S.inline.update({"_mint_call_token", "_CallStateCache.put"})
+
+    def resolved_call(S, call_state, output_schema, input_schema, stream_id, created_at=None):
+        cs = SOpaque(NONE_CS, "PyObj") if call_state is None else call_state
+        r = SObj(None, kind="Resolved", call_state=cs, output_schema=output_schema, input_schema=input_schema, stream_id=stream_id)
+        S.ghost.setdefault("created_at_of", {})[id(r)] = created_at
+        S.ghost.setdefault("keepalive", []).append(r)
+        return r
+
+    H[st._ResolvedCall] = resolved_call
+    install_created_at(S)
+    # the worker's cache before /init: the part that matters — empty, or one entry of an earlier call (fresh call id: c differs)
+    d = collections.OrderedDict()
+    if S.choose(2) == 1:
+        c0, k0, e0, r0 = S.opaque("earlier_call_id", "CallId"), S.opaque("earlier_key", "IdentKey"), S.int("earlier_expiry"), mk_resolved(S, "earlier")
+        S.assume(Not(eq(c0, c)))  # os.urandom call ids are fresh
+        S.assume(entry_ok(((c0, k0), (e0, r0)), ttl, expires))
+        d[(c0, k0)] = (e0, r0)
+    cap = S.int("cap")
+    S.assume(cap >= len(d))
+    cache = mk_cache(S, d, cap, cache_ttl)
+    S.unroll[("_CallStateCache.put", 0)] = 3
+    server = SObj(None, kind="Server", implementation=impl)
+    app = SObj(None, kind="App", _token_key=b"k" * 32, _token_ttl=token_ttl, _call_state_cache=cache, _server=server)
+    env = {"app": app, "method_name": "m", "info": SObj(None, kind="MethodInfo", method_type=SObj(None, kind="MT", value="stream")), "stream": SObj(None, kind="Body"), "kwargs": {}}
+    slicing.run_slice(S, aps._run_stream_init_sync, _is_warmup_put, env, stop={"app", "kwargs", "sink", "stats", "stats_token", "info", "method_name"}, cache_key="warmup-put")
+    S.oblige("I-init.exactly_one_call_token_is_minted", len(S.events("mint")) == 1 and bool(minted), kind="trace")
+    if not minted:
+        return
+    # ghost update at the mint event (call id fresh => minted(c) was unconstrained so far)
+    cid = minted["cid"]
+    S.oblige("I-init.minted_call_id_is_the_fresh_random_id", cid is c, kind="trace")
+    S.oblige("I-init.call_token_sealed_for_the_requesters_identity", minted["who"] is auth.fields["who"], kind="trace")
+    S.oblige("I-init.call_token_carries_the_streams_own_objects", (minted["cs"] is call_state if has_cs else minted["empty_cs"]) and minted["out"] is out_schema and minted["inp"] is in_schema, kind="trace")
+    S.assume(And(
+        SBool(MINTED(c.t)),
+        SBool(M_WHO(c.t) == auth.fields["who"].t),
+        SInt(M_AT(c.t)) == minted["at"],
+        SBool(M_CS(c.t) == (call_state.t if has_cs else NONE_CS)),
+        SBool(M_OUT(c.t) == out_schema.t),
+        SBool(M_IN(c.t) == in_schema.t),
+        SBool(M_SID(c.t) == strterm(minted["sid"])),
+    ))
+    S.inputs["put_clock_minus_mint_clock"] = (reads[-1] - minted["at"]) if reads else 0
+    ents = entries_of(cache)
+    S.oblige("I.established_by_the_warm_up_put", And(*[entry_ok(it, ttl, expires) for it in ents]), kind="lemma")
+    S.oblige("I-init.size_within_capacity", len(ents) <= cap, kind="lemma")
+    mine = [it for it in ents if it[0][0] is c]
+    S.oblige("I-init.warm_up_entry_is_keyed_by_the_minted_call_id_and_the_requesters_identity_key", len(mine) <= 1 and all(it[0][1] is auth.fields["idkey"] for it in mine), kind="lemma")
+    if mine and expires:
+        S.canary("I-init.canary.warm_up_entry_expires_a_full_ttl_after_the_last_clock_read", mine[0][1][0] == reads[-1] + ttl)
+    S.canary("I-init.canary.warm_up_never_stores", SBool(z3.BoolVal(not mine)))
+
+
+# ------------------------------------------------------------------------------------------
+# O5 _HttpRpcApp.__init__: the cache TTL is the token TTL; capacity as configured; starts empty
+# ------------------------------------------------------------------------------------------
+
+
+@unit("C14.O5 _HttpRpcApp.__init__ wires the cache to the token TTL", targets=["vgi_rpc/http/server/_app.py::_HttpRpcApp.__init__", "vgi_rpc/http/server/_state_token.py::_CallStateCache.__init__"], min_obligations=5)
+def wiring(S):
+    import collections
+    import threading
+
+    token_ttl, entries = S.int("token_ttl"), S.int("call_state_cache_entries")
+    S.handlers["_resolve_state_types"] = lambda S, server: {}
+    S.handlers[float] = lambda S, x: x
+    S.handlers[collections.OrderedDict] = lambda S: collections.OrderedDict()
+    S.handlers[threading.Lock] = lambda S: SObj(None, kind="Lock", name="cache_lock")
+
+    def construct_cache(S, *a, **kw):  # the real _CallStateCache.__init__ on a fresh object
+        obj = SObj(st._CallStateCache)
+        S.call(st._CallStateCache.__init__, obj, *a, **kw)
+        return obj
+
+    S.handlers[st._CallStateCache] = construct_cache
+    me = SObj(appmod._HttpRpcApp)
+    out = S.outcome(appmod._HttpRpcApp.__init__, me, SObj(None, kind="Server"), b"k" * 32, token_ttl=token_ttl, call_state_cache_entries=entries)
+    S.oblige("O5.init_raises_nothing", out.returned, kind="raises", why=(repr(out.exc) if out.raised else ""))
+    if not out.returned:
+        return
+    cache = me.fields["_call_state_cache"]
+    S.oblige("O5.app_token_ttl_is_the_configured_one", me.fields["_token_ttl"] is token_ttl, kind="post")
+    S.oblige("O5.cache_ttl_equals_token_ttl_when_tokens_expire", Implies(token_ttl > 0, cache.fields["_ttl"] == token_ttl), kind="post")
+    S.oblige("O5.cache_capacity_is_the_configured_one", cache.fields["_max_entries"] is entries, kind="post")
+    S.oblige("O5.cache_starts_empty_which_satisfies_I", len(cache.fields["_entries"]) == 0, kind="post")
+    S.oblige("O5.cache_has_its_own_lock", isinstance(cache.fields["_lock"], SObj) and cache.fields["_lock"].kind == "Lock", kind="lock")
+    S.canary("O5.canary.cache_ttl_always_3600", cache.fields["_ttl"] == 3600)
+
+
+# ------------------------------------------------------------------------------------------
+# O6 _identity: a function of the caller identity (what I's key clause needs); its known collision is a note
+# ------------------------------------------------------------------------------------------
+
+AUTH_SHAPES = ["none", "unauth", "dp", "d-", "-p", "--"]
+
+
+def sym_auth(S, tag, shape):
+    from vgi_rpc.rpc import AuthContext
+
+    S.inputs[f"shape{tag}"] = shape
+    if shape == "none":
+        return None, ("anon", "", "")
+    d = S.str(f"domain{tag}") if shape[0] == "d" or shape == "unauth" else None
+    p = S.str(f"principal{tag}") if shape[1] == "p" or shape == "unauth" else None
+    if shape == "unauth":
+        return SObj(AuthContext, domain=d, authenticated=False, principal=p), ("anon", "", "")
+    return SObj(AuthContext, domain=d, authenticated=True, principal=p), ("auth", d if d is not None else "", p if p is not None else "")
+
+
+def native_auth(shape, d, p):
+    from vgi_rpc.rpc import AuthContext
+
+    if shape == "none":
+        return None
+    if shape == "unauth":
+        return AuthContext(domain=d, authenticated=False, principal=p)
+    return AuthContext(domain=d if shape[0] == "d" else None, authenticated=True, principal=p if shape[1] == "p" else None)
+
+
+def replay_identity(inputs, ob):
+    a1 = native_auth(inputs["shape1"], inputs.get("domain1"), inputs.get("principal1"))
+    a2 = native_auth(inputs["shape2"], inputs.get("domain2"), inputs.get("principal2"))
+    ident = lambda a: ("anon",) if a is None or not a.authenticated else ("auth", a.domain or "", a.principal or "")  # noqa: E731
+    k1, k2 = st._CallStateCache._identity(a1), st._CallStateCache._identity(a2)
+    bad = ident(a1) == ident(a2) and k1 != k2
+    return ReplayResult(bad, f"identities {ident(a1)} / {ident(a2)} -> keys {k1!r} / {k2!r}")
+
+
+@unit("C14.O6 _CallStateCache._identity is a function of the caller identity", targets=["vgi_rpc/http/server/_state_token.py::_CallStateCache._identity"], replay=replay_identity, min_obligations=30)
+def identity(S):
+    s1, s2 = AUTH_SHAPES[S.choose(len(AUTH_SHAPES))], AUTH_SHAPES[S.choose(len(AUTH_SHAPES))]
+    a1, i1 = sym_auth(S, "1", s1)
+    a2, i2 = sym_auth(S, "2", s2)
+    k1, k2 = S.outcome(st._CallStateCache._identity, a1), S.outcome(st._CallStateCache._identity, a2)
+    S.oblige("O6.identity_key_total", k1.returned and k2.returned, kind="raises")
+    if not (k1.returned and k2.returned):
+        return
+    same = And(eq(i1[1], i2[1]), eq(i1[2], i2[2])) if i1[0] == i2[0] else False
+    S.oblige("O6.same_identity_same_key", Implies(same, eq(k1.value, k2.value)))
+    # NOTE, not a violation: the key is not injective (anonymous vs authenticated ("", "anonymous")); nothing above needs it to be
+    S.canary("O6.canary.key_is_injective_in_the_identity", Implies(eq(k1.value, k2.value), same))
+
+
+# ------------------------------------------------------------------------------------------
+# native histories: real make_wsgi_app workers sharing a token key, a logical clock
+# ------------------------------------------------------------------------------------------
+
+
+from dataclasses import dataclass as _dataclass  # noqa: E402
+from typing import Protocol as _Protocol  # noqa: E402
+
+from vgi_rpc.rpc import AnnotatedBatch, CallContext, ExchangeState, OutputCollector, Stream  # noqa: E402
+from vgi_rpc.utils import ArrowSerializableDataclass  # noqa: E402
+
+_SCH = pa.schema([pa.field("v", pa.int64())])
+
+
+@_dataclass(frozen=True)
+class CallA(ArrowSerializableDataclass):
+    base: int
+
+
+@_dataclass
+class XA(ExchangeState):
+    CALL_STATE_TYPE = CallA
+    n: int = 0
+
+    def bind_call_state(self, cs):  # type: ignore[no-untyped-def]
+        self._cs = cs
+
+    def exchange(self, input: AnnotatedBatch, out: OutputCollector, ctx: CallContext) -> None:
+        self.n += 1
+        out.emit_pydict({"v": [self._cs.base + input.batch.column("v")[0].as_py()]})
+
+
+class NativeProtocol(_Protocol):
+    def xa(self, base: int) -> Stream[XA]: ...
+
+
+class NativeImpl:
+    def xa(self, base: int) -> Stream[XA]:
+        return Stream(output_schema=_SCH, state=XA(), input_schema=_SCH, call_state=CallA(base))
+
+
+class Fleet:
+    """n real HTTP workers (falcon test clients) with one token key; the clock seen by the token module and
+    the stream dispatcher is `self.now` (or, while `steps` is non-empty, the next scripted reading)."""
+
+    def __init__(self, n, ttl, capacity, key=b"k" * 32):
+        import types
+
+        from vgi_rpc.http._testing import make_sync_client
+        from vgi_rpc.rpc import RpcServer
+
+        self.SCH = _SCH
+        P, Impl = NativeProtocol, NativeImpl
+        self.now, self.steps = 0.0, []
+
+        def read():
+            if self.steps:
+                self.now = self.steps.pop(0)
+            return self.now
+
+        fake = types.SimpleNamespace(time=read, monotonic=_time.monotonic, perf_counter=_time.perf_counter)
+        self.saved = (st.time, aps.time)
+        st.time = fake
+        aps.time = fake
+        caps = capacity if isinstance(capacity, (list, tuple)) else [capacity] * n
+        self.workers = [make_sync_client(RpcServer(P, Impl()), token_key=key, token_ttl=ttl, call_state_cache_entries=caps[i]) for i in range(n)]
+
+    def close(self):
+        st.time, aps.time = self.saved
+        for w in self.workers:
+            w.close()
+
+    CT = {"Content-Type": "application/vnd.apache.arrow.stream"}
+
+    @staticmethod
+    def _parse(body):
+        import io
+
+        r = pa.ipc.open_stream(io.BytesIO(body))
+        out = []
+        while True:
+            try:
+                b, md = r.read_next_batch_with_custom_metadata()
+            except StopIteration:
+                break
+            out.append((b.to_pylist(), dict(md or {})))
+        return out
+
+    @staticmethod
+    def _request(schema, row, md):
+        import io
+
+        buf = io.BytesIO()
+        with pa.ipc.new_stream(buf, schema) as w:
+            w.write_batch(pa.RecordBatch.from_pylist([row], schema=schema), custom_metadata=pa.KeyValueMetadata(md))
+        return buf.getvalue()
+
+    def init(self, w, t, base=10, steps=()):
+        from vgi_rpc.metadata import CALL_STATE_KEY, REQUEST_VERSION, REQUEST_VERSION_KEY, RPC_METHOD_KEY, STATE_KEY
+
+        self.now, self.steps = t, list(steps)
+        body = self._request(pa.schema([pa.field("base", pa.int64(), nullable=False)]), {"base": base}, {RPC_METHOD_KEY: b"xa", REQUEST_VERSION_KEY: REQUEST_VERSION})
+        r = self.workers[w].post("http://test/xa/init", content=body, headers=self.CT)
+        self.steps = []
+        md = self._parse(r.content)[-1][1]
+        return md[STATE_KEY], md.get(CALL_STATE_KEY)
+
+    def cont(self, w, t, cursor, call, v=1):
+        from vgi_rpc.metadata import CALL_STATE_KEY, STATE_KEY
+
+        self.now = t
+        md = {STATE_KEY: cursor}
+        if call is not None:
+            md[CALL_STATE_KEY] = call
+        r = self.workers[w].post("http://test/xa/exchange", content=self._request(self.SCH, {"v": v}, md), headers=self.CT)
+        msgs = self._parse(r.content) if r.content else []
+        err = next((m[1].get(b"vgi_rpc.log_message", b"").decode() for m in msgs if m[1].get(b"vgi_rpc.log_level") == b"EXCEPTION"), None)
+        nxt = next((m[1][STATE_KEY] for m in msgs if STATE_KEY in m[1]), None)
+        return {"http": r.status_code, "error": err, "data": [m[0] for m in msgs if m[0]], "next": nxt}
+
+
+def _same(a, b):
+    return (a["http"], a["error"], a["data"]) == (b["http"], b["error"], b["data"])
+
+
+def _show(r):
+    return f"HTTP {r['http']} " + (f"error {r['error']!r}" if r["error"] else f"data {r['data']}")
+
+
+def native_histories(kinds, ttl=100):
+    """Runs the histories of the given kinds; returns (divergences, count).  A divergence = the same request at the
+    same time answered differently by the history's warm worker and by a worker with an empty cache."""
+    found, n = [], 0
+    for cap in (8, 1, 0):
+        f = Fleet(3, ttl=ttl, capacity=cap)
+        try:
+            t0 = 1000
+            if "ttl" in kinds:
+                # H1: miss-path re-population late in the token's life;  H2: hit path late in the token's life
+                for name, mid_worker in (("continuation on a second worker (miss -> put) at created+ttl-1", 1), ("continuation on the init worker at created+ttl-1", 0)):
+                    cur, call = f.init(0, t0)
+                    mid = f.cont(mid_worker, t0 + ttl - 1, cur, call)
+                    n += 1
+                    if mid["next"] is None:
+                        continue
+                    for dt in (ttl + 1, ttl + 5, 2 * ttl - 2):
+                        warm, cold = f.cont(mid_worker, t0 + dt, mid["next"], call), f.cont(2, t0 + dt, mid["next"], call)
+                        n += 1
+                        if not _same(warm, cold):
+                            found.append(f"capacity {cap}, ttl {ttl}: init at t={t0} on W1; {name}; next continuation at t={t0 + dt}: that worker -> {_show(warm)}, cold W3 -> {_show(cold)}")
+                            break
+                # H3: the clock advances between the mint and the warm-up put of /init
+                cur, call = f.init(0, t0, steps=[t0, t0 + 3, t0 + 3, t0 + 3, t0 + 3, t0 + 3])
+                mid = f.cont(0, t0 + ttl - 1, cur, call)
+                if mid["next"] is not None:
+                    warm, cold = f.cont(0, t0 + ttl + 2, mid["next"], call), f.cont(2, t0 + ttl + 2, mid["next"], call)
+                    n += 1
+                    if not _same(warm, cold):
+                        found.append(f"capacity {cap}, ttl {ttl}: /init on W1 whose clock reads {t0} at the mint and {t0 + 3} at the warm-up put; continuation at t={t0 + ttl + 2}: W1 -> {_show(warm)}, cold W3 -> {_show(cold)}")
+            if "call_token" in kinds:
+                cur, call = f.init(0, t0)
+                _, other = f.init(0, t0, base=77)
+                for name, tok in (("no call token", None), ("the call token of another stream of the same caller", other), ("a garbage call token", b"AAAA" + (call or b"")[4:])):
+                    warm, cold = f.cont(0, t0 + 1, cur, tok), f.cont(2, t0 + 1, cur, tok)
+                    n += 1
+                    if not _same(warm, cold):
+                        found.append(f"capacity {cap}: init at t={t0} on W1; continuation with {name} at t={t0 + 1}: W1 -> {_show(warm)}, cold W3 -> {_show(cold)}")
+            if "plain" in kinds and cap:
+                # H5: a cold worker is offered stream 1's cursor with stream 2's call token, then a conforming continuation of stream 1
+                (cur1, call1), (_, call2) = f.init(0, t0, base=10), f.init(0, t0, base=77)
+                f.cont(1, t0 + 1, cur1, call2)
+                warm, cold = f.cont(1, t0 + 2, cur1, call1), f.cont(2, t0 + 2, cur1, call1)
+                n += 2
+                if not _same(warm, cold):
+                    found.append(f"capacity {cap}: streams 1 and 2 opened on W1; W2 is sent stream 1's cursor with stream 2's call token at t={t0 + 1}; then the conforming continuation of stream 1 at t={t0 + 2}: W2 -> {_show(warm)}, cold W3 -> {_show(cold)}")
+            if "plain" in kinds:
+                # conforming continuations, several streams competing for the cache, every worker
+                streams = [f.init(i % 2, t0 + i, base=10 * i) for i in range(3)]
+                for step in range(3):
+                    for i, (cur, call) in enumerate(streams):
+                        rs = [f.cont(w, t0 + 10 + step, cur, call, v=step) for w in range(3)]
+                        n += 3
+                        if not (_same(rs[0], rs[1]) and _same(rs[1], rs[2])):
+                            found.append(f"capacity {cap}: stream {i} step {step}: workers answer {[_show(r) for r in rs]}")
+                        if rs[0]["next"] is not None:
+                            streams[i] = (rs[0]["next"], call)
+        finally:
+            f.close()
+    return found, n
+
+
+def _kinds_for(ob):
+    name = getattr(ob, "name", "") or ""
+    if "L1b" in name:
+        return ("call_token",)
+    return ("ttl", "plain")  # includes the /init clock-step history
 
 
 def replay_history(inputs, ob):
-    return ReplayResult(False, "native history replay not wired yet")
+    """Judge the property natively on the history family the refuted obligation points at."""
+    found, n = native_histories(_kinds_for(ob))
+    return ReplayResult(bool(found), (found[0] if found else f"{n} native requests: warm and cold workers agree"))
+
+
+def search_history(ob, seed):
+    found, n = native_histories(_kinds_for(ob))
+    if found:
+        return {"history": found[0]}, ReplayResult(True, found[0])
+    return None
